@@ -146,6 +146,27 @@ CLAIMED["C03"] = {
   "note": "Trusted: the python semantics in lib/check_c03.py. Differential testing, not proof. It found the shared-parent defect ([@A | @B, \"s\", 3] accepted [1,3]), fixed in e76ac42.",
   "technique": "differential check of Validate against a denotational (set) semantics of type references/or/allOf/additionalProperties on generated type graphs (partial: no theorem)",
 }
+CLAIMED["C06"] = {
+  "text": "Proved on the JSON scanner model, for every byte string: C06_spans_inside (every delivered event has begin <= end < length of the input), C06_events_nested (replaying the stream on a stack "
+          "never mismatches: each closing event pairs with the open event of the same kind and the same begin offset) and C06_events_balanced_when_accepted (for an accepted text the stream "
+          "closes everything it opened). PARTIAL for the rest: 'literal and key spans are exactly the source tokens, container spans run bracket to bracket, the value can be rebuilt from the "
+          "events alone, the schema and enum scanners deliver the same sequence' are decided by comparison, on generated valid texts (depth 8, width 8, all scalar forms, \\u escapes with hex "
+          "letters, multi-byte keys, nested empties, random blanks), of the library's NextLexeme stream with token spans computed by an independent parser, with the value rebuilt from the events "
+          "against python's json, with the raw streams of the schema scanner and (arrays of scalars) the enum scanner obtained through overlay hooks, and with the extracted Coq model's stream; "
+          "plus history probes (the stream after Check/Len equals the stream of a fresh document).",
+  "note": "Trusted: Coq kernel; extraction; lib/jsonref.py; overlay hooks exposing the schema/enum scanners' Next(). No Coq model of the schema and enum scanners exists yet, so the cross-scanner clause is sampled.",
+  "technique": "Coq invariants over the scanner model's run (spans inside, nesting, balance) + differential check of event streams against an independent tokenizer and across the three scanners (partial)",
+}
+CLAIMED["C14"] = {
+  "text": "JSON-document half - full proof on the scanner model: C14_len_of_document_then_foreign (for ANY accepted document doc, blank separator sep and foreign byte c - directly after doc only "
+          "when doc ends in a bracket or quote - Len(doc ++ sep ++ c :: rest) succeeds and equals the length of doc without trailing blanks), C14_len_of_document_alone, "
+          "C14_len_error_when_no_document (Len fails whenever the text does not begin with a complete value), C14_doc_len_verdict (Len errs exactly when Check errs). Tie: generated accepted "
+          "documents x 13 separators x 20 trailing texts from a directive-like alphabet, the prefix re-scanned to the same event stream, malformed prefixes for the error side; library vs "
+          "extracted model vs expected length. PARTIAL: the schema-scanner and enum-scanner halves of C14 have no model yet and are not checked by this revision.",
+  "note": "Trusted: Coq kernel; extraction; the generator. Two defects were found and fixed: Len one byte short before a directly following foreign byte (1915ee1) and Len of an empty document returning "
+          "0 without error (8a6afee).",
+  "technique": "Coq proof of Len = document length on the JSON scanner model (event spans + end-of-input rule) + generated S x separator x trailing-text correspondence (JSON half; schema/enum halves not covered)",
+}
 NOT_APPLICABLE = {
  "C13": "checked (bin/check C13: equality of Check verdict, AST and validation verdicts across random compositions of the listed schema/document rewrites) but not yet claimed: no theorem about the "
         "schema scanner's respelling invariance exists in this revision, so the proof technique does not yet decide it; document half is covered by C05/C06 theorems + C01",
